@@ -169,14 +169,14 @@ func encAny(v interface{}) string {
 
 /**************** recording writer ****************/
 
-type recWriter struct {
+type dispRecWriter struct {
 	cs  *dcase
 	seq int // request number (own writers), 0 for writers installed by handlers
 	alt int
 	hdr http.Header
 }
 
-func (w *recWriter) tag() string {
+func (w *dispRecWriter) tag() string {
 	if w.seq == 0 {
 		return "a" + strconv.Itoa(w.alt)
 	}
@@ -185,11 +185,11 @@ func (w *recWriter) tag() string {
 	}
 	return "x"
 }
-func (w *recWriter) Header() http.Header { return w.hdr }
-func (w *recWriter) WriteHeader(code int) {
+func (w *dispRecWriter) Header() http.Header { return w.hdr }
+func (w *dispRecWriter) WriteHeader(code int) {
 	w.cs.log = append(w.cs.log, "WH:"+w.tag()+":"+strconv.Itoa(code))
 }
-func (w *recWriter) Write(b []byte) (int, error) {
+func (w *dispRecWriter) Write(b []byte) (int, error) {
 	w.cs.log = append(w.cs.log, "W:"+w.tag()+":"+hx(string(b)))
 	return len(b), nil
 }
@@ -217,7 +217,7 @@ type dcase struct {
 	trace    []string
 	log      []string
 	curReq   *http.Request
-	curRec   *recWriter
+	curRec   *dispRecWriter
 	curCtx   *rux.Context
 	altReqs  map[*http.Request]int
 	actions  int // actions executed in the current request
@@ -290,7 +290,7 @@ func (cs *dcase) dump(c *rux.Context) string {
 	case ownWriterOf(c, c.Resp):
 		resp = "o"
 	default:
-		if rw, ok := c.Resp.(*recWriter); ok && rw.seq == 0 {
+		if rw, ok := c.Resp.(*dispRecWriter); ok && rw.seq == 0 {
 			resp = "a" + strconv.Itoa(rw.alt)
 		}
 	}
@@ -368,7 +368,7 @@ func (cs *dcase) runActs(c *rux.Context, acts []dact, pos string) {
 		case "wh":
 			c.Resp.WriteHeader(a.n)
 		case "rr":
-			c.Resp = &recWriter{cs: cs, alt: a.n, hdr: http.Header{}}
+			c.Resp = &dispRecWriter{cs: cs, alt: a.n, hdr: http.Header{}}
 		case "rq":
 			nr := c.Req.WithContext(context.WithValue(c.Req.Context(), dctxKey{}, a.n))
 			cs.altReqs[nr] = a.n
@@ -622,7 +622,7 @@ func (cs *dcase) serve(f []string) string {
 	cs.seq++
 	cs.trace, cs.log, cs.actions, cs.curCtx = nil, nil, 0, nil
 	cs.curReq = httptest.NewRequest(method, url, nil)
-	cs.curRec = &recWriter{cs: cs, seq: cs.seq, hdr: http.Header{}}
+	cs.curRec = &dispRecWriter{cs: cs, seq: cs.seq, hdr: http.Header{}}
 	outcome := "ret"
 	func() {
 		defer func() {
@@ -761,7 +761,7 @@ func nilPanic() (ans string, oracle []string) {
 	r.GET("/x", func(c *rux.Context) { panic(nilValue) })
 	cs := newDcase()
 	cs.seq = 1
-	rec := &recWriter{cs: cs, seq: 1, hdr: http.Header{}}
+	rec := &dispRecWriter{cs: cs, seq: 1, hdr: http.Header{}}
 	escaped := false
 	func() {
 		defer func() {
